@@ -3,6 +3,7 @@ import itertools, os, random, shutil
 from .. import common as C, structs as S, valgen as V, refcodec as R, labgen as L
 
 LEAN_MODULES = ["ZvtVerif.Properties.C13", "ZvtVerif.Properties.C13S"]
+TRANSLATED = {"structs"}      # translated tables this property consumes (a translator problem elsewhere does not break its tie)
 ASSUMPTIONS = ["canonical value domain of DESIGN.md §5.1", "a Vec field's consecutive elements form one group"]
 
 
